@@ -10,6 +10,7 @@ import itertools
 import json
 import os
 import time
+import unicodedata
 
 from gvmon.gen import records as R
 from gvmon.monitors import contracts
@@ -19,11 +20,14 @@ RULE = ("(a) mappings word-like key -> non-empty list of non-empty strings over 
         "dictionaries (GTF-style: values free of ; \" , and control characters); non-trivial = mapping contains a reserved "
         "or whitespace character; (b) every string over the alphabet {; = SP \" , a % 1} up to length 6 (quick) / 9 "
         "(thorough) through the inferring parser, up to length 4 through every supplied dialect, random strings to length "
-        "200; non-trivial = contains a structural character; distinct by mapping+dialect / by string")
+        "200; strings and gff3 values in which a '%' is followed by 0-3 characters that are digits or hex look-alikes in Unicode "
+        "(every Nd digit of every script, No/Nl numerics, fullwidth/Cyrillic/Greek/mathematical A-F) mixed with real escapes; "
+        "non-trivial = contains a structural character; distinct by mapping+dialect / by string")
 REQUIRED = ["(a) round trips under a gff3 dialect with the leading-semicolon flag set", "(a) round trips with link-shaped values holding reserved characters",
             "(a) same text parsed again after the dialect object was edited in place", "(b) long-run strings parsed under a watchdog", "(a) round trips under a dialect whose flags are truthy/falsy non-bool values",
             "interludes with ignore_url_escape_characters switched on and restored", "(a) print/parse round trips", "(b) strings parsed (inferred)", "(b) strings parsed (supplied dialect)",
-            "_reconstruct contract evaluations"]
+            "_reconstruct contract evaluations", "(b) strings with '%' followed by digit-like/hex-like Unicode characters parsed",
+            "(a) round trips of values with '%' followed by digit-like/hex-like Unicode characters"]
 ASSUMPTIONS = [
     "GFF3-style = dialect dictionaries with fmt 'gff3' (percent-encoding), key/value separator '=' or ' '; GTF-style = fmt 'gtf'",
     "'single line' is judged on LF/CR (what file iteration splits on); lone surrogates are excluded (not representable in files)",
@@ -37,6 +41,48 @@ SPECIAL = ["\t", "\n", "\r", "%", ";", "=", "&", ",", '"', " ", "\x00", "\x01", 
            "\xa0", "　", "​", "\U0001F9EC", "\U00010000", "\U0010FFFF", "é", "漢", "́", "‮", "\\", "'",
            "%25", "%3B", "%09", "%zz", "%", "+", "\\\\", "\\\"", "\\n", "%41", "%20", "\x0b", "\x0c", "\x1c", "﻿"]
 GTF_FORBIDDEN = set(';",') | {chr(i) for i in range(32)} | {chr(127)} | {chr(i) for i in range(0x80, 0xA0)}
+
+
+# Characters that some notion of "digit" or "hex digit" accepts although they are not ASCII hex digits: every decimal digit
+# of every script (category Nd), other numerics (No/Nl: superscripts, circled, roman), fullwidth and other look-alike
+# letters A-F.  After a '%' none of them makes a percent-escape; the text is an attribute string like any other.
+ND_DIGITS = "".join(chr(c) for c in range(0x80, 0x110000) if unicodedata.category(chr(c)) == "Nd")
+OTHER_NUMERIC = "".join(chr(c) for c in range(0x80, 0x30000) if unicodedata.category(chr(c)) in ("No", "Nl"))
+LOOKALIKE_HEX = ("".join(chr(0xFF21 + i) + chr(0xFF41 + i) for i in range(6))            # fullwidth A-F a-f
+                 + "\u0410\u0412\u0421\u0415\u0430\u0441\u0435\u0391\u0392\u0395"              # Cyrillic/Greek look-alikes
+                 + "".join(chr(0x1D400 + i) + chr(0x1D41A + i) for i in range(6)))          # mathematical bold A-F a-f
+ASCII_HEX = "0123456789abcdefABCDEF"
+
+
+def digitlike(rng):
+    r = rng.random()
+    if r < 0.5:
+        return rng.choice(ND_DIGITS)
+    if r < 0.7:
+        return rng.choice(ASCII_HEX)
+    if r < 0.82:
+        return rng.choice(LOOKALIKE_HEX)
+    if r < 0.94:
+        return rng.choice(OTHER_NUMERIC)
+    return rng.choice("gGxX%+- ") if rng.random() < 0.6 else chr(rng.choice([0xB2, 0x660, 0x6F0, 0x966, 0xFF10]) + rng.randrange(0, 2))
+
+
+def percent_digitlike_text(rng):
+    """Text holding one or more '%' each followed by 0-3 digit-like characters, alone or in a run with real escapes."""
+    out = [rng.choice(["", "", "x", "50", "discount ", rng.choice(R.PLAIN)])]
+    for _ in range(rng.choice([1, 1, 1, 2, 3])):
+        r = rng.random()
+        if r < 0.2:
+            out.append(rng.choice(["%41", "%E2%82%AC", "%3B", "%25", "%c3%a9", "%FF", "%4"]))
+        out.append("%" + "".join(digitlike(rng) for _ in range(rng.choice([0, 1, 2, 2, 2, 2, 3]))))
+        if rng.random() < 0.3:
+            out.append(rng.choice(["", " ", "b", ",", "%"]))
+    out.append(rng.choice(["", "", " today", "z", "%"]))
+    return "".join(out)
+
+
+ATTR_SHAPES = ["%s", "Note=%s", "ID=g1;Note=%s", "ID=g1;Note=%s;Alias=x,y", "Note=a,%s,b", "%s=v", "ID=g1; Note=%s;",
+               "Note %s", 'gene_id "g1"; note "%s";', "note %s; gene_id g1", "Note=%s;Note=b"]
 
 
 def dialects():
@@ -461,6 +507,27 @@ def run(ctx):
         case = {"kind": "total", "s": s, "dialect": d}
         total(ctx, s, d, case)
         ctx.case((s, d), any(c in ';= ",%' for c in s), cls="random string")
+    # (b)/(a) a '%' followed by characters that are digits (or look like hex digits) in Unicode but are not ASCII hex digits
+    gff3 = [d for d in ds if d["fmt"] == "gff3"]
+    for _ in range(ctx.budget(4000, 160000)):
+        t = percent_digitlike_text(rng)
+        if rng.random() < 0.75:
+            s = rng.choice(ATTR_SHAPES) % t
+            d = rng.choice(ds) if rng.random() < 0.5 else None
+            case = {"kind": "total", "s": s, "dialect": d}
+            total(ctx, s, d, case)
+            ctx.mon("(b) strings with '%' followed by digit-like/hex-like Unicode characters parsed")
+            ctx.case((s, d), True, cls="percent followed by digit-like Unicode characters (totality)")
+        else:
+            # the _reconstruct contract speaks about printed mappings of (a); whatever it recorded while (b) printed the
+            # parse of an arbitrary string (keys holding line breaks, outside the statement's word-like keys) is not judged
+            contracts.drain()
+            d = rng.choice(gff3)
+            m = [["ID", ["g1"]], ["Note", [t] if rng.random() < 0.6 else [t, percent_digitlike_text(rng)]]]
+            case = {"kind": "roundtrip", "dialect": d, "mapping": m, "extra": []}
+            roundtrip(ctx, case)
+            ctx.mon("(a) round trips of values with '%' followed by digit-like/hex-like Unicode characters")
+            ctx.case((d, m), True, cls="percent followed by digit-like Unicode characters (round trip)")
     ctx.mon("_reconstruct contract evaluations", contracts.EVALS["parser._reconstruct"])
     ctx.note("slowest single parse+print call: %.4fs (bounded-progress watchdog 5s)" % _slowest[0])
     if _slowest[0] > 5.0:
